@@ -298,6 +298,184 @@ impl Condition<P> for LogCond2 {
     }
 }
 
+/// One condition of an `nst` case and how to read the `Progress` state it writes (LessThanN only).
+struct NCond { cond: Box<dyn Condition<P>>, prog: Option<fn(&State<P>) -> String> }
+
+fn prog_of<L: mahf::lens::AnyLens>(state: &State<P>) -> String {
+    state.try_get_value::<Progress<L>>().map(fxn).unwrap_or("none".into())
+}
+fn so(x: &Sx) -> SingleObjective { SingleObjective::try_from(x.float().unwrap()).unwrap() }
+
+fn nst_cond(c: &Sx) -> NCond {
+    use mahf::lens::common::BestObjectiveValueLens;
+    let (name, a) = c.head().unwrap();
+    match name {
+        "opt" => NCond { cond: OptimumReached::new::<P>(a[0].float().unwrap()).unwrap(), prog: None },
+        "lt" => {
+            let n = a[1].nat().unwrap() as u32;
+            match lens_id(&a[0]) {
+                0 => NCond { cond: LessThanN::<ValueOf<Iterations>>::iterations::<P>(n), prog: Some(prog_of::<ValueOf<Iterations>>) },
+                1 => NCond { cond: LessThanN::<ValueOf<Evaluations>>::evaluations::<P>(n), prog: Some(prog_of::<ValueOf<Evaluations>>) },
+                2 => NCond { cond: LessThanN::new::<P>(n, ValueOf::<ObsA>::new()), prog: Some(prog_of::<ValueOf<ObsA>>) },
+                _ => NCond { cond: LessThanN::new::<P>(n, ValueOf::<ObsB>::new()), prog: Some(prog_of::<ValueOf<ObsB>>) },
+            }
+        }
+        "ltb" => NCond { cond: LessThanN::new::<P>(so(&a[0]), BestObjectiveValueLens::<P>::new()), prog: Some(prog_of::<BestObjectiveValueLens<P>>) },
+        "every" => {
+            let n = a[1].nat().unwrap() as u32;
+            let cond = match lens_id(&a[0]) {
+                0 => EveryN::<ValueOf<Iterations>>::iterations::<P>(n),
+                1 => EveryN::new::<P>(n, ValueOf::<Evaluations>::new()),
+                2 => EveryN::new::<P>(n, ValueOf::<ObsA>::new()),
+                _ => EveryN::new::<P>(n, ValueOf::<ObsB>::new()),
+            };
+            NCond { cond, prog: None }
+        }
+        "chg" => NCond { cond: change_of(lens_id(&a[0]), &a[1]), prog: None },
+        "chgb" => {
+            let checker = match a[0].head() {
+                Some(("de", th)) => DeltaEqChecker::new(so(&th[0])),
+                _ => PartialEqChecker::new::<SingleObjective>(),
+            };
+            NCond { cond: ChangeOf::new::<P>(checker, BestObjectiveValueLens::<P>::new()), prog: None }
+        }
+        _ => panic!("unknown nst condition {name}"),
+    }
+}
+
+/// Interprets an `nst` script on the real `State`: `(in …)` is `State::with_inner_state`.
+fn nst_items(items: &[Sx], conds: &[NCond], problem: &P, state: &mut State<P>, log: &mut Vec<String>) -> ExecResult<()> {
+    for it in items {
+        let (name, a) = it.head().unwrap();
+        match name {
+            "put" => {
+                let v = a[1].nat().unwrap() as u32;
+                match lens_id(&a[0]) {
+                    0 => { state.insert(Iterations(v)); }
+                    1 => { state.insert(Evaluations(v)); }
+                    2 => { state.insert(ObsA(v)); }
+                    _ => { state.insert(ObsB(v)); }
+                }
+            }
+            "putb" => {
+                let mut best = BestIndividual::<P>::new();
+                if a[0].atom() != Some("none") { best.update(&Individual::new(7u64, so(&a[0]))); }
+                state.insert(best);
+            }
+            "set" => {
+                let v = a[1].nat().unwrap() as u32;
+                match lens_id(&a[0]) {
+                    0 => { state.set_value::<Iterations>(v); }
+                    1 => { state.set_value::<Evaluations>(v); }
+                    2 => { state.set_value::<ObsA>(v); }
+                    _ => { state.set_value::<ObsB>(v); }
+                }
+            }
+            "updb" => {
+                if let Ok(mut best) = state.try_borrow_mut::<BestIndividual<P>>() { best.update(&Individual::new(8u64, so(&a[0]))); }
+            }
+            "init" => { if let Some(c) = conds.get(a[0].nat().unwrap() as usize) { c.cond.init(problem, state)?; } }
+            "eval" => {
+                let i = a[0].nat().unwrap();
+                if let Some(c) = conds.get(i as usize) {
+                    let r = res(c.cond.evaluate(problem, state));
+                    log.push(match c.prog { Some(p) => format!("({i} {r} {})", p(state)), None => format!("({i} {r})") });
+                }
+            }
+            "in" => { state.with_inner_state(|inner| nst_items(a, conds, problem, inner, log))?; }
+            _ => panic!("unknown nst item {name}"),
+        }
+    }
+    Ok(())
+}
+
+/// Nested search: replaces the current population by one individual with the next scripted objective value.
+#[derive(Clone)]
+struct NextPop { script: Arc<Mutex<std::collections::VecDeque<f64>>>, passes: Arc<AtomicU64> }
+impl Serialize for NextPop {
+    fn serialize<S: serde::Serializer>(&self, s: S) -> Result<S::Ok, S::Error> { s.serialize_unit() }
+}
+impl Component<P> for NextPop {
+    fn execute(&self, _problem: &P, state: &mut State<P>) -> ExecResult<()> {
+        self.passes.fetch_add(1, Ordering::SeqCst);
+        let mut pops = state.populations_mut();
+        pops.pop();
+        match self.script.lock().unwrap().pop_front() {
+            Some(v) => pops.push(vec![Individual::new(9u64, SingleObjective::try_from(v).unwrap())]),
+            None => pops.push(vec![]),
+        }
+        Ok(())
+    }
+}
+/// Sets the current population to a fixed one (empty: nothing for `BestIndividualUpdate` to find).
+#[derive(Clone, Serialize)]
+struct FixPop { v: Option<f64> }
+impl Component<P> for FixPop {
+    fn execute(&self, _problem: &P, state: &mut State<P>) -> ExecResult<()> {
+        let mut pops = state.populations_mut();
+        pops.pop();
+        pops.push(self.v.map(|v| vec![Individual::new(6u64, SingleObjective::try_from(v).unwrap())]).unwrap_or_default());
+        Ok(())
+    }
+}
+/// Feeds the best of the current population to the NEAREST `BestIndividual` without owning one (no `init`).
+#[derive(Clone, Serialize)]
+struct UpdNearest;
+impl Component<P> for UpdNearest {
+    fn execute(&self, _problem: &P, state: &mut State<P>) -> ExecResult<()> {
+        let v = state.populations().current().first().map(|i| i.clone());
+        if let (Some(i), Ok(mut best)) = (v, state.try_borrow_mut::<BestIndividual<P>>()) { best.update(&i); }
+        Ok(())
+    }
+}
+/// Wrapper around the search's loop condition: logs `(t verdict <Iterations> <nearest BestIndividual>)` per test
+/// (the best value is read with `try_borrow`, not through the helper the conditions use).
+#[derive(Clone)]
+struct LogCondS { inner: Box<dyn Condition<P>>, log: EvLog, budget: Arc<AtomicU64> }
+impl Serialize for LogCondS {
+    fn serialize<S: serde::Serializer>(&self, s: S) -> Result<S::Ok, S::Error> { s.serialize_unit() }
+}
+impl Condition<P> for LogCondS {
+    fn init(&self, problem: &P, state: &mut State<P>) -> ExecResult<()> { self.inner.init(problem, state) }
+    fn evaluate(&self, problem: &P, state: &mut State<P>) -> ExecResult<bool> {
+        if self.budget.fetch_add(1, Ordering::SeqCst) > NEST_BUDGET { return Err(eyre::eyre!("event budget exhausted")); }
+        let it = state.try_get_value::<Iterations>().map(|v| v.to_string()).unwrap_or("none".into());
+        let best = nearest_best(state);
+        let v = self.inner.evaluate(problem, state)?;
+        self.log.lock().unwrap().push(format!("(t {} {it} {best})", b(v)));
+        Ok(v)
+    }
+}
+fn nearest_best(state: &State<P>) -> String {
+    match state.try_borrow::<BestIndividual<P>>() {
+        Ok(best) => best.as_ref().map(|i| fx(i.objective().value())).unwrap_or("none".into()),
+        Err(_) => "none".into(),
+    }
+}
+fn build_search(bld: mahf::configuration::ConfigurationBuilder<P>, shadow: &[bool], cond: &Box<dyn Condition<P>>, body: &NextPop)
+    -> mahf::configuration::ConfigurationBuilder<P> {
+    match shadow {
+        // no scope at all: the loop on the root registry
+        [] => bld.while_(cond.clone(), |lp| lp.do_(Box::new(body.clone())).do_(Box::new(UpdNearest))),
+        [own] => {
+            // the innermost scope: the loop; with `update_best_individual` in its body the scope keeps its own best
+            // individual (`BestIndividualUpdate::init` runs inside the scope's registry)
+            let own = *own;
+            bld.scope_(|inner| inner.while_(cond.clone(), |lp| {
+                let lp = lp.do_(Box::new(body.clone()));
+                if own { lp.update_best_individual() } else { lp.do_(Box::new(UpdNearest)) }
+            }))
+        }
+        [own, rest @ ..] => {
+            let own = *own;
+            bld.scope_(|inner| {
+                let inner = if own { inner.update_best_individual() } else { inner };
+                build_search(inner, rest, cond, body)
+            })
+        }
+    }
+}
+
 fn fxn(v: f64) -> String { if v.is_nan() { "nan".into() } else { fx(v) } }
 fn res(r: ExecResult<bool>) -> String {
     match r { Ok(v) => b(v), Err(_) => "err".into() }
@@ -610,6 +788,53 @@ fn run_case(input: &Sx) -> String {
                     tagged("iters", [state.try_get_value::<Iterations>().map(|v| v.to_string()).unwrap_or("none".into())]),
                     tagged("evals", [state.try_get_value::<Evaluations>().map(|v| v.to_string()).unwrap_or("none".into())]),
                     tagged("log", l),
+                ])
+            }).unwrap_or("panic".into())
+        }
+        "nst" => {
+            // (nst (opt O) (conds COND*) (items ITEM*)): the shipped conditions on nested states
+            let problem = CProblem { optimum: a[0].head().unwrap().1[0].float().unwrap() };
+            let (_, cs) = a[1].head().unwrap();
+            let (_, items) = a[2].head().unwrap();
+            catch(|| {
+                let conds: Vec<NCond> = cs.iter().map(nst_cond).collect();
+                let mut log = vec![];
+                let _ = nst_items(items, &conds, &problem, &mut state, &mut log);
+                tagged("log", log)
+            }).unwrap_or("panic".into())
+        }
+        "nsearch" => {
+            // (nsearch (opt O) (eps E) K OUTER (sh FLAG+) (script V*)): built with the real builder, run with Configuration::run
+            use mahf::state::common::Populations;
+            let problem = CProblem { optimum: a[0].head().unwrap().1[0].float().unwrap() };
+            let eps = a[1].head().unwrap().1[0].float().unwrap();
+            let k = a[2].nat().unwrap() as u32;
+            let outer = if a[3].atom() == Some("none") { None } else { Some(a[3].float().unwrap()) };
+            let shadow: Vec<bool> = a[4].head().unwrap().1.iter().map(|x| x.atom() == Some("t")).collect();
+            let script: std::collections::VecDeque<f64> = a[5].head().unwrap().1.iter().map(|x| x.float().unwrap()).collect();
+            let log: EvLog = Arc::new(Mutex::new(vec![]));
+            let budget = Arc::new(AtomicU64::new(0));
+            let passes = Arc::new(AtomicU64::new(0));
+            let cond: Box<dyn Condition<P>> = Box::new(LogCondS {
+                inner: !OptimumReached::new::<P>(eps).unwrap() & LessThanN::<ValueOf<Iterations>>::iterations::<P>(k),
+                log: log.clone(), budget: budget.clone() });
+            let body = NextPop { script: Arc::new(Mutex::new(script)), passes: passes.clone() };
+            let bld = mahf::Configuration::<P>::builder()
+                .do_(Box::new(FixPop { v: outer }))
+                .update_best_individual()
+                .do_(Box::new(FixPop { v: None }));
+            let config = build_search(bld, &shadow, &cond, &body).build();
+            state.insert(Populations::<P>::new());
+            state.populations_mut().push(vec![]);
+            catch(|| {
+                let r = config.run(&problem, &mut state);
+                if budget.load(Ordering::SeqCst) > NEST_BUDGET { return "budget".to_string(); }
+                let l = log.lock().unwrap().clone();
+                list([
+                    tagged("res", [if r.is_ok() { "ok".to_string() } else { "err".to_string() }]),
+                    tagged("passes", [passes.load(Ordering::SeqCst).to_string()]),
+                    tagged("log", l),
+                    tagged("root", [nearest_best(&state)]),
                 ])
             }).unwrap_or("panic".into())
         }
@@ -1037,6 +1262,127 @@ fn main() {
         for _ in 0..(if t { 3_000 } else { 150 }) {
             let (n, m, st) = (r.below(120), r.below(300), 1 + r.below(9));
             emit(site_c(c), format!("(loopc {c} {n} {m} {st})"));
+        }
+    }
+    // 10. The conditions on NESTED states (State::with_inner_state / Scope, depth 1..3): the state they read is
+    //     shadowed by an empty / different inner value while the outer value would give the opposite answer
+    {
+        // IN^d{X}: X wrapped in d inner states
+        fn wrap(d: u64, x: String) -> String { (0..d).fold(x, |acc, _| format!("(in {acc})")) }
+        let depths: Vec<(u64, u64)> = (0..=3u64).flat_map(|d1| (0..=3 - d1).map(move |d2| (d1, d2))).filter(|&(a, b)| a + b >= 1 && a <= 2 && b <= 2).collect();
+        // (a) ladders over the best individual: OptimumReached, LessThanN / ChangeOf over the best objective value
+        let bcond = |kind: &str, eps: f64| match kind {
+            "opt" => format!("(opt {})", xf(eps)),
+            "ltb" => format!("(ltb {})", xf(1.0 + eps)),
+            "chgb-pe" => "(chgb pe)".to_string(),
+            _ => format!("(chgb (de {}))", xf(0.25 + eps)),
+        };
+        for kind in ["opt", "ltb", "chgb-pe", "chgb-de"] {
+            let site = match kind { "opt" => "OptimumReached::nested", "ltb" => "LessThanN::nested", _ => "ChangeOf::nested" };
+            for opt in [0.0f64, 1.0] { for eps in [0.0f64, 0.5] {
+                if kind != "opt" && (opt != 0.0) { continue; }
+                let vals = |w: &str| match w { "within" => Some(xf(opt)), "edge" => Some(xf(opt + eps)), "far" => Some(xf(opt + 2.0)), "empty" => Some("none".to_string()), _ => None };
+                for outer in ["absent", "empty", "within", "far"] { for shadow in ["nothing", "empty", "within", "far"] {
+                    for &(d1, d2) in &depths { for v in ["edge", "far"] { for inits in 0..(if kind == "opt" { 1 } else { 4 }) {
+                        let e = "(eval 0)";
+                        let init_root = if inits & 1 == 1 { "(init 0) " } else { "" };
+                        let init_sh = if inits & 2 == 2 { "(init 0) " } else { "" };
+                        let put_outer = vals(outer).map(|x| format!("(putb {x}) ")).unwrap_or_default();
+                        let put_shadow = vals(shadow).map(|x| format!("(putb {x}) ")).unwrap_or_default();
+                        let innermost = wrap(d2, format!("{e} (updb {}) {e}", vals(v).unwrap()));
+                        let middle = wrap(d1, format!("{e} {put_shadow}{init_sh}{e} {innermost} {e}"));
+                        emit(site, format!("(nst (opt {}) (conds {}) (items {put_outer}{init_root}{e} {middle} {e}))", xf(opt), bcond(kind, eps)));
+                    } } }
+                } }
+            } }
+        }
+        // (b) ladders over shadowed counters: LessThanN, EveryN, ChangeOf over Iterations / a user-defined state
+        for (site, cond) in [("LessThanN::nested", "(lt K 2)"), ("LessThanN::nested", "(lt K 5)"), ("EveryN::nested", "(every K 2)"), ("EveryN::nested", "(every K 0)"),
+                             ("ChangeOf::nested", "(chg K pe)"), ("ChangeOf::nested", "(chg K (de 2))")] {
+            for key in ["it", "oa"] {
+                let cond = cond.replace('K', key);
+                let stateful = !cond.starts_with("(every");
+                for outer in [None, Some(1u64), Some(4)] { for shadow in [None, Some(0u64), Some(2), Some(5)] {
+                    for &(d1, d2) in &depths { for v in [1u64, 6] { for inits in 0..(if stateful { 4 } else { 1 }) {
+                        let e = "(eval 0)";
+                        let init_root = if inits & 1 == 1 { "(init 0) " } else { "" };
+                        let init_sh = if inits & 2 == 2 { "(init 0) " } else { "" };
+                        let put_outer = outer.map(|x| format!("(put {key} {x}) ")).unwrap_or_default();
+                        let put_shadow = shadow.map(|x| format!("(put {key} {x}) ")).unwrap_or_default();
+                        let innermost = wrap(d2, format!("{e} (set {key} {v}) {e}"));
+                        let middle = wrap(d1, format!("{e} {put_shadow}{init_sh}{e} {innermost} {e}"));
+                        emit(site, format!("(nst (opt {}) (conds {cond}) (items {put_outer}{init_root}{e} {middle} {e}))", xf(0.0)));
+                    } } }
+                } }
+            }
+        }
+        // (c) random scripts: one kind of condition (finer site) or a mix
+        let bvals = [0.0f64, 0.25, 0.5, 1.0, 2.0, 5.0];
+        let keys = ["it", "ev", "oa", "ob"];
+        fn gen_nst(r: &mut Sm, depth: u32, nc: u64, keys: &[&str], bvals: &[f64], opt: f64) -> String {
+            let n = 2 + r.below(6);
+            let mut out: Vec<String> = vec![];
+            if depth > 0 && r.chance(1, 2) {
+                // open the inner state with a shadowing insert
+                if r.chance(1, 2) { out.push(format!("(put {} {})", r.pick(keys), r.below(7))); }
+                else if r.chance(1, 2) { out.push("(putb none)".to_string()); }
+                else { out.push(format!("(putb {})", fx(opt + *r.pick(bvals)))); }
+            }
+            for _ in 0..n {
+                out.push(match r.below(18) {
+                    0..=1 => format!("(put {} {})", r.pick(keys), r.below(7)),
+                    2 => if r.chance(1, 2) { "(putb none)".to_string() } else { format!("(putb {})", fx(opt + *r.pick(bvals))) },
+                    3..=4 => format!("(set {} {})", r.pick(keys), r.below(7)),
+                    5 => format!("(updb {})", fx(opt + *r.pick(bvals))),
+                    6 => format!("(init {})", r.below(nc)),
+                    7..=13 => format!("(eval {})", r.below(nc)),
+                    _ if depth < 3 => format!("(in {})", gen_nst(r, depth + 1, nc, keys, bvals, opt)),
+                    _ => format!("(eval {})", r.below(nc)),
+                });
+            }
+            out.join(" ")
+        }
+        for _ in 0..(if t { 40_000 } else { 4_000 }) {
+            let opt = if r.chance(3, 4) { 0.0 } else { 1.0 };
+            let kind = r.below(5);
+            // pairwise different lenses for the ChangeOf conditions (two over one lens share their memory: known finding)
+            let start = r.below(4) as usize;
+            let mut conds: Vec<String> = vec![];
+            let nc = 1 + r.below(4);
+            for i in 0..nc as usize {
+                let key = keys[(start + i) % 4];
+                let k = if kind == 4 { r.below(4) } else { kind };
+                conds.push(match k {
+                    0 => if r.chance(2, 3) { format!("(opt {})", fx(*r.pick(&[0.0, 0.25, 0.5, 1.0]))) } else { format!("(ltb {})", fx(opt + *r.pick(&[0.5, 1.0, 2.0]))) },
+                    1 => format!("(lt {key} {})", 1 + r.below(5)),
+                    2 => format!("(every {key} {})", r.below(4)),
+                    _ => if i == 0 && r.chance(1, 3) { format!("(chgb {})", if r.chance(1, 2) { "pe".to_string() } else { format!("(de {})", fx(*r.pick(&[0.25, 1.0]))) }) }
+                         else { format!("(chg {key} {})", r.pick(&["pe", "(de 1)", "(de 2)", "(de 3)"])) },
+                });
+            }
+            let site = match kind { 0 => "OptimumReached::nested", 1 => "LessThanN::nested", 2 => "EveryN::nested", 3 => "ChangeOf::nested", _ => "Conditions::nested" };
+            let used: Vec<&str> = (0..nc as usize).map(|i| keys[(start + i) % 4]).collect();
+            let items = gen_nst(&mut r, 0, nc, &used, &bvals, opt);
+            emit(site, format!("(nst (opt {}) (conds {}) (items {items}))", fx(opt), conds.join(" ")));
+        }
+        // (d) the nested search: scope_* around `while !OptimumReached(eps) & iterations < k`, built with the real
+        //     builder; a scope that keeps its own best individual (update_best_individual) starts from nothing
+        let scripts: [&[f64]; 7] = [&[], &[2.0], &[2.0, 1.0, 0.25], &[0.0], &[3.0, 3.0, 3.0, 3.0, 3.0, 3.0], &[1.0, 0.5, 0.0], &[2.0, 0.0]];
+        let shadows: Vec<String> = (1..=3usize).flat_map(|d| (0..1u32 << d).map(move |m| (0..d).map(|i| if m >> i & 1 == 1 { "t" } else { "f" }).collect::<Vec<_>>().join(" "))).collect();
+        for eps in [0.0f64, 0.5] { for k in [0u64, 1, 3, 5] { for outer in [None, Some(0.0f64), Some(0.5), Some(2.0)] {
+            for sh in &shadows { for sc in &scripts {
+                let o = outer.map(fx).unwrap_or("none".into());
+                emit("Loop::nested_search", format!("(nsearch (opt {}) (eps {}) {k} {o} (sh {sh}) {})", xf(0.0), xf(eps), tagged("script", sc.iter().map(|&v| fx(v)))));
+            } }
+        } } }
+        for _ in 0..(if t { 10_000 } else { 800 }) {
+            let eps = *r.pick(&[0.0f64, 0.25, 0.5, 1.0]);
+            let k = r.below(9);
+            let o = if r.chance(1, 4) { "none".to_string() } else { fx(*r.pick(&bvals)) };
+            let sh = r.pick(&shadows).clone();
+            let n = r.below(10);
+            let sc: Vec<String> = (0..n).map(|_| fx(*r.pick(&bvals) + if r.chance(1, 3) { 0.125 } else { 0.0 })).collect();
+            emit("Loop::nested_search", format!("(nsearch (opt {}) (eps {}) {k} {o} (sh {sh}) (script {}))", xf(0.0), xf(eps), sc.join(" ")));
         }
     }
     // (the formula cases come last: they are by far the most numerous, and the check keeps only the first few
